@@ -25,6 +25,12 @@ def main():
         traceback.print_exc()
         print('HARNESS-ERROR: %r' % (e,))
         rc = 2
+    try:
+        import signal
+        signal.setitimer(signal.ITIMER_REAL, 0, 0)
+        signal.signal(signal.SIGALRM, signal.SIG_IGN)
+    except Exception:
+        pass
     sys.stdout.flush()
     sys.exit(rc)
 
